@@ -248,8 +248,8 @@ def sim_collect(rep, prop, tier, rng, seed, gen_kwargs_list, n_quick, n_thorough
                 for lose in (True, False):
                     mid = ["drop %d s2c 1 all" % c_ for c_ in connected] if lose else []
                     mid += ["sframe 1 16"] * 2
-                    cands.append((base + mid, len(base + mid)))
-            for body_, sf_ in cands:
+                    cands.append((base + mid, len(base + mid), meta_))
+            for body_, sf_, meta_ in cands:
                 r2 = run_batch([body_ + gen_scripts.settle_lines(meta_)])[0]
                 pr2 = [p for p in simoracle.Trace(r2[0], r2.raw).run(settle_from=sf_) if p["prop"] in oracle_props]
                 if pr2:
